@@ -78,6 +78,70 @@ def judge_success_late(sc, lines_in, impl_out):
     return out[:3]
 
 
+def run_stop_window(sc):
+    """one started layer whose reading thread is parked in a blocking rxfn (read_timeout 0.5 s); stop() is called right after a read began, and
+    `delay` later - the worker thread has exited and reset the layer, stop() is still joining the reading thread - another thread calls send()"""
+    import core
+    import isotp
+    import threading
+    import time
+    import queue
+    core.time.perf_counter_ns = core.REAL_PERF_NS
+    core.time.perf_counter = core.REAL_PERF
+    q = queue.Queue()
+    entered = [0.0]
+
+    def rxfn(timeout):
+        entered[0] = time.monotonic()
+        try:
+            return q.get(timeout=timeout) if timeout and timeout > 0 else q.get_nowait()
+        except queue.Empty:
+            return None
+    addr = isotp.Address(isotp.AddressingMode.Normal_11bits, txid=0x123, rxid=0x456)
+    L = isotp.TransportLayer(rxfn, lambda m: None, addr, None, {'blocking_send': bool(sc.get('blocking', True)), 'rx_flowcontrol_timeout': 20000},
+                             read_timeout=0.5)
+    L.start()
+    res = {'outcome': None}
+    try:
+        # wait for a read that has just begun: the reading thread is then parked for the next ~0.5 s
+        t_end = time.monotonic() + 3
+        last = entered[0]
+        while time.monotonic() < t_end and (entered[0] == last or time.monotonic() - entered[0] > 0.02):
+            time.sleep(0.001)
+        stop_done = [None]
+
+        def do_stop():
+            L.stop()
+            stop_done[0] = time.monotonic()
+        stopper = threading.Thread(target=do_stop, daemon=True)
+        stopper.start()
+        time.sleep(sc['delay'])
+        in_window = stopper.is_alive()
+        t0 = time.monotonic()
+        try:
+            if sc.get('blocking', True):
+                L.send(bytes(100), send_timeout=2.5)
+                res['outcome'] = 'returned'
+            else:
+                L.send(bytes(100))
+                res['outcome'] = 'BlockingSendFailure'        # non-blocking: only the queue check below applies
+        except Exception as e:
+            res['outcome'] = type(e).__name__
+        res['send_s'] = time.monotonic() - t0
+        stopper.join(5)
+        res['left_queued'] = (not L.tx_queue.empty()) or L.active_send_request is not None or L.transmitting()
+        if not in_window or stop_done[0] is None or stop_done[0] - t0 < 0.05:
+            # the machine was too slow for the experiment (stop() had already returned): nothing is claimed
+            res = {'outcome': 'BlockingSendFailure', 'left_queued': False, 'skipped': True}
+    finally:
+        try:
+            L.stop()
+        except Exception:
+            pass
+    sc['_result'] = res
+    return [], []
+
+
 class C12(PropBase):
     id = 'C12'
     rx_only_gaps = 0.1
@@ -139,8 +203,14 @@ class C12(PropBase):
                 sc['senders'][1] = []
             sc['no_model'] = True      # the replay of threaded runs through the model is C13's correspondence; here only the callers' view is judged
             yield sc
+        if shard == 0:
+            # a send() that lands INSIDE stop(): after the worker thread has gone, while stop() still waits for the reading thread
+            for k in range(2 if tier == 'quick' else 12):
+                yield {'ops': [], 'stop_window': True, 'no_model': True, 'seed': 9000 + k, 'delay': [0.05, 0.15, 0.25][k % 3], 'blocking': k % 4 != 3}
 
     def run_impl(self, sc):
+        if sc.get('stop_window'):
+            return run_stop_window(sc)
         if sc.get('threaded'):
             from props import C13 as c13
             return c13.run_threaded(sc)
@@ -150,6 +220,16 @@ class C12(PropBase):
         return trace.project_events(out_line, keep=('done', 'tx'), status_keys=('tr', 'q'), drop_times=True)
 
     def judge(self, sc, lines_in, impl_out):
+        if sc.get('stop_window'):
+            res = sc.get('_result') or {}
+            out = []
+            if res.get('outcome') != 'BlockingSendFailure':
+                out.append(('blocking', 'send() accepted while stop() was still joining the reading thread: the caller got %s after %.2f s, expected '
+                            'BlockingSendFailure as soon as stop() resets the layer (the request must be completed, with failure)' % (
+                                res.get('outcome'), res.get('send_s', -1))))
+            if res.get('left_queued'):
+                out.append(('exactly_once', 'a request accepted by send() is still queued / active after stop() returned: it never completes'))
+            return out
         if sc.get('threaded'):
             res = sc.get('_result') or {}
             out = []
@@ -188,6 +268,8 @@ class C12(PropBase):
         return judge_outcomes_exist(sc, lines_in, impl_out) + judge_success_late(sc, lines_in, impl_out)
 
     def nontrivial_key(self, sc, lines_in, impl_out):
+        if sc.get('stop_window'):
+            return ('stop_window', sc['seed'], sc['delay'])
         if sc.get('threaded'):
             return ('threaded', sc['transport'], tuple(len(x) for x in sc['senders'][0]), tuple(len(x) for x in sc['senders'][1]), sc['perturb'], sc['seed'])
         shape = []
